@@ -445,7 +445,21 @@ pub fn gen_cfg(prop: &str, seed: u64) -> RunCfg {
                 if let Some(op) = batch.pop() {
                     if g.rng.pct(8) {
                         // trailing-slash join argument: must be rejected as an invalid path
-                        let bad = crate::mon_twin::map_op(&op, &|p: &P| P { fs: p.fs, s: format!("{}/", if p.s.is_empty() { "x" } else { &p.s }) }, 0);
+                        let variant = g.rng.below(4);
+                        let bad = crate::mon_twin::map_op(
+                            &op,
+                            &|p: &P| P {
+                                fs: p.fs,
+                                s: match variant {
+                                    // arguments made of slashes only, doubled trailing slashes
+                                    0 => "//".to_string(),
+                                    1 => "///".to_string(),
+                                    2 => format!("{}//", if p.s.is_empty() { "x" } else { &p.s }),
+                                    _ => format!("{}/", if p.s.is_empty() { "x" } else { &p.s }),
+                                },
+                            },
+                            0,
+                        );
                         ops.push(bad);
                     }
                     ops.push(op);
@@ -820,7 +834,7 @@ pub fn gen_cfg(prop: &str, seed: u64) -> RunCfg {
                         ops.push(match g.rng.below(5) {
                             0 => Op::EnvNonUtf8(P::new(&t)),
                             1 => Op::EnvDanglingSymlink(P::new(&t)),
-                            2 | 3 => Op::EnvSpecial(P::new(&t), g.rng.below(3) as u8),
+                            2 | 3 => Op::EnvSpecial(P::new(&t), if g.rng.pct(12) { 3 } else { g.rng.below(3) as u8 }),
                             _ => Op::EnvRemoveBehind(P::new(&t)),
                         });
                         if g.rng.pct(50) {
@@ -915,6 +929,51 @@ pub fn gen_cfg(prop: &str, seed: u64) -> RunCfg {
                             world.apply(o);
                         }
                         ops.extend(blk);
+                    }
+                }
+                if g.rng.pct(4) {
+                    // join arguments both path types must refuse alike (trailing / all slashes)
+                    let t = g.target_w(&world.m[0], &[(Tc::File, 40), (Tc::Dir, 40), (Tc::AbsentInDir, 20)]);
+                    let bad = match g.rng.below(4) {
+                        0 => "//".to_string(),
+                        1 => "///".to_string(),
+                        2 => format!("{}//", if t.is_empty() { "x" } else { &t }),
+                        _ => format!("{}/", if t.is_empty() { "x" } else { &t }),
+                    };
+                    let op = match g.rng.below(3) {
+                        0 => Op::Exists(P::new(&bad)),
+                        1 => Op::CreateDir(P::new(&bad)),
+                        _ => Op::ReadDir(P::new(&bad)),
+                    };
+                    world.apply(&op);
+                    ops.push(op);
+                }
+                if g.rng.pct(7) && spec.has_phys() == false {
+                    // a create handle kept open across calls on OTHER paths (its parent above
+                    // all): the new file exists from the moment the handle is opened
+                    if let Some(t) = g.target(&world.m[0], Tc::AbsentInDir) {
+                        let par = parent_of(&t);
+                        let slot = 3u8;
+                        let open = Op::OpenWrite { p: P::new(&t), append: false, slot };
+                        if matches!(world.clone().apply(&open), Want::Ok(_)) {
+                            let mut blk = vec![open];
+                            let others = [Op::RemoveDir(P::new(&par)), Op::ReadDir(P::new(&par)), Op::Exists(P::new(&t)), Op::RemoveDirAll(P::new(&par)), Op::Metadata(P::new(&par))];
+                            for _ in 0..g.rng.range(1, 3) {
+                                let o = others[g.rng.below(others.len())].clone();
+                                // never the root, never a removal that would succeed (it would touch the open path)
+                                let bad = matches!(&o, Op::RemoveDir(p) | Op::RemoveDirAll(p) if p.s.is_empty()) || matches!(o, Op::RemoveDirAll(_));
+                                if !bad {
+                                    blk.push(o);
+                                }
+                            }
+                            blk.push(Op::HWrite(slot, g.payload()));
+                            blk.push(Op::HDrop(slot));
+                            blk.push(Op::ReadDir(P::new(&par)));
+                            for o in &blk {
+                                world.apply(o);
+                            }
+                            ops.extend(blk);
+                        }
                     }
                 }
                 if g.rng.pct(12) {
